@@ -87,6 +87,9 @@ def tlc(specdir, module, cfg=None, workers="auto", timeout=900, simulate=None, d
     # thread stack: a StackOverflowError is an infrastructure failure, never a verdict
     if "-Xss" not in env.get("JAVA_TOOL_OPTIONS", ""):
         env["JAVA_TOOL_OPTIONS"] = (env.get("JAVA_TOOL_OPTIONS", "") + " -Xss512m").strip()
+    # TLC leaves an (empty) directory in java.io.tmpdir per run: keep it inside the scratch copy, which is removed
+    if "java.io.tmpdir" not in env["JAVA_TOOL_OPTIONS"]:
+        env["JAVA_TOOL_OPTIONS"] += " -Djava.io.tmpdir=" + specdir
     if deque:
         env["JAVA_TOOL_OPTIONS"] = (env.get("JAVA_TOOL_OPTIONS", "") + " " + STATE_DEQUE).strip()
     out_path = out_file or os.path.join(specdir, "tlc-%d-%d.out" % (os.getpid(), run_no))
